@@ -26,7 +26,10 @@ RULE = ("exhaustive {ok,err} call scripts for hot 1x1 (x all circuit scripts), h
         "open circuits; in 15% of them the request context expires (cancelled after the k-th visit, k = 0.., or through a "
         "replica call hanging until the caller's deadline and failing / accepting just after it); exhaustive {ok,err} "
         "scripts x every expiry point for hot 1x1 and cold 1x1 + hot 1x1; real 50 ms request deadlines falling into the "
-        "100 ms back-off; shard order as shuffled by the real code (seeded). non-trivial = at least one shard visit "
+        "100 ms back-off; sequences of 2-4 bulks through ONE client object (bulks that exhaust their tries after partial "
+        "success, healthy ones, random ones, ones whose context expires; every {ok,err} first bulk followed by a healthy "
+        "one for hot 1x2 and cold 1x1 + hot 1x1), each bulk with its own payload so that calls are attributed to bulks; "
+        "shard order as shuffled by the real code (seeded). non-trivial = at least one shard visit "
         "failed or was short-circuited (fail-over or retry happened); distinct by script")
 
 
